@@ -227,6 +227,18 @@ pub fn run(ctx: &mut Ctx) {
             qv.push(QV { r, x, val: Rat::new(n.clone(), d.clone()), how: format!("({}*{})/({}*{})", n, k, d, k) });
         }
     }
+    // the same values reached through operators: Relaxed +- integer builds its result directly, so a
+    // cancellation leaves spellings that from_parts never produces (e.g. a zero with denominator 3)
+    for (n, d) in &reduced {
+        for k in factors.iter().take(3) {
+            for m in [2i64, -3] {
+                let (kn, kd) = ((n + d * m) * k, d * k);
+                let x = Relaxed::from_parts(ref_to_i(&kn), ref_to_u(kd.magnitude())) - ref_to_i(&BigInt::from(m));
+                let r = RBig::from_parts(ref_to_i(n), ref_to_u(d.magnitude()));
+                qv.push(QV { r, x, val: Rat::new(n.clone(), d.clone()), how: format!("(({}+{}*{})*{})/({}*{}) - {}", n, d, m, k, d, k, m) });
+            }
+        }
+    }
     let nq = qv.len() as u64;
     ctx.bound("rational_values", nq);
     let qr = &qv;
